@@ -51,10 +51,12 @@ def lift_try(block, U):
     for s in block[1]:
         if s[0] == 'let' and s[2][0] == 'if':
             _, c, th, el = s[2]
-            if el is not None and th[2] is not None and el[2] is not None and th[2][0] == 'try' and el[2][0] == 'try':
-                th2 = ('block', lift_try(th, U)[1], th[2][1])
-                el2 = ('block', lift_try(el, U)[1], el[2][1])
-                stmts.append(('let', s[1], ('try', ('if', c, th2, el2))))
+            if el is not None and th[2] is not None and el[2] is not None and (th[2][0] == 'try' or el[2][0] == 'try'):
+                def opt(b):
+                    b = lift_try(b, U)
+                    tail = b[2][1] if b[2][0] == 'try' else ('call', ['Some'], [b[2]])
+                    return ('block', b[1], tail)
+                stmts.append(('let', s[1], ('try', ('if', c, opt(th), opt(el)))))
                 continue
         if s[0] == 'expr' and s[1][0] == 'if' and s[1][3] is None:
             _, c, th, _ = s[1]
@@ -78,6 +80,10 @@ def generate(api):
                 tab = self.cfg.get('recv_methods', {}).get(e[1][1])
                 if tab is not None and e[2] in tab and not e[3]:
                     return "(%s %s)" % (tab[e[2]], e[1][1])
+            if e[0] == 'cast' and e[2] in ('i32', 'u32') and e[1][0] == 'mcall' and e[1][2] in ('x', 'y', 'width', 'height') \
+                    and self.cfg.get('methods', {}).get(e[1][2]) in ('rx', 'ry', 'rw', 'rh'):
+                # `f32 as i32` without floor/ceil: Rust truncates toward zero (then saturates)
+                return "(%s (f32_trunc %s))" % (self.cfg['casts'][e[2]], rs.Emitter.expr(self, e[1]))
             if e[0] == 'try':
                 raise U("`?` in a position the render_group plug-in does not handle")
             return rs.Emitter.expr(self, e)
